@@ -297,8 +297,8 @@ def build() -> dict:
                 "name": "extras",
                 "path": "/verif/vf/extra.py",
                 "serves_properties": [],
-                "kind_free_text": "specifications beyond the listed properties (FutureBridge.tla: lowlevel.futures.unwrap_future, exact replay of TLC "
-                "behaviours); `cd /verif && /venv/bin/python -m vf.extra`; reports in evidence/extra/, never a property alarm",
+                "kind_free_text": "specifications beyond the listed properties (FutureBridge.tla: lowlevel.futures.unwrap_future; TaskHandle.tla: Task.join / "
+                "join_or_cancel / wait of the asyncio backend; exact replay of TLC behaviours); `cd /verif && /venv/bin/python -m vf.extra`; reports in evidence/extra/, never a property alarm",
             },
         ],
         "checks": checks,
